@@ -6,20 +6,20 @@
 """
 
 TIERS = {
-    'C02': {'quick': dict(runs=8000, batch=125, wall=420), 'thorough': dict(runs=160000, batch=500, wall=3000)},
-    'C10': {'quick': dict(runs=6000, batch=125, wall=420), 'thorough': dict(runs=120000, batch=500, wall=3000)},
-    'C19': {'quick': dict(runs=6000, batch=125, wall=420), 'thorough': dict(runs=120000, batch=500, wall=3000)},
-    'C14': {'quick': dict(runs=6000, batch=125, wall=420), 'thorough': dict(runs=120000, batch=500, wall=3000)},
-    'C07': {'quick': dict(runs=3000, batch=60, wall=420), 'thorough': dict(runs=60000, batch=250, wall=3000)},
-    'C08': {'quick': dict(runs=1600, batch=40, wall=420), 'thorough': dict(runs=24000, batch=100, wall=3000)},
-    'C09': {'quick': dict(runs=3000, batch=60, wall=420), 'thorough': dict(runs=60000, batch=250, wall=3000)},
-    'C05': {'quick': dict(runs=4000, batch=100, wall=420), 'thorough': dict(runs=80000, batch=400, wall=3000)},
-    'C13': {'quick': dict(runs=3000, batch=75, wall=420), 'thorough': dict(runs=60000, batch=300, wall=3000)},
-    'C06': {'quick': dict(runs=2400, batch=50, wall=480), 'thorough': dict(runs=48000, batch=200, wall=3600)},
-    'C04': {'quick': dict(runs=2400, batch=50, wall=480), 'thorough': dict(runs=48000, batch=200, wall=3600)},
-    'C11': {'quick': dict(runs=6000, batch=125, wall=420), 'thorough': dict(runs=120000, batch=500, wall=3000)},
-    'C16': {'quick': dict(runs=4000, batch=100, wall=420), 'thorough': dict(runs=80000, batch=400, wall=3000)},
-    'C20': {'quick': dict(runs=8000, batch=125, wall=420), 'thorough': dict(runs=160000, batch=500, wall=3000)},
+    'C02': {'quick': dict(runs=32000, batch=250, wall=600), 'thorough': dict(runs=640000, batch=1000, wall=5400)},
+    'C04': {'quick': dict(runs=9600, batch=75, wall=600), 'thorough': dict(runs=192000, batch=300, wall=5400)},
+    'C05': {'quick': dict(runs=16000, batch=125, wall=600), 'thorough': dict(runs=320000, batch=500, wall=5400)},
+    'C06': {'quick': dict(runs=7200, batch=60, wall=600), 'thorough': dict(runs=144000, batch=240, wall=5400)},
+    'C07': {'quick': dict(runs=12000, batch=100, wall=600), 'thorough': dict(runs=240000, batch=400, wall=5400)},
+    'C08': {'quick': dict(runs=6400, batch=50, wall=600), 'thorough': dict(runs=128000, batch=200, wall=5400)},
+    'C09': {'quick': dict(runs=12000, batch=100, wall=600), 'thorough': dict(runs=240000, batch=400, wall=5400)},
+    'C10': {'quick': dict(runs=24000, batch=200, wall=600), 'thorough': dict(runs=480000, batch=800, wall=5400)},
+    'C11': {'quick': dict(runs=24000, batch=200, wall=600), 'thorough': dict(runs=480000, batch=800, wall=5400)},
+    'C13': {'quick': dict(runs=12000, batch=100, wall=600), 'thorough': dict(runs=240000, batch=400, wall=5400)},
+    'C14': {'quick': dict(runs=24000, batch=200, wall=600), 'thorough': dict(runs=480000, batch=800, wall=5400)},
+    'C16': {'quick': dict(runs=16000, batch=125, wall=600), 'thorough': dict(runs=320000, batch=500, wall=5400)},
+    'C19': {'quick': dict(runs=24000, batch=200, wall=600), 'thorough': dict(runs=480000, batch=800, wall=5400)},
+    'C20': {'quick': dict(runs=32000, batch=250, wall=600), 'thorough': dict(runs=640000, batch=1000, wall=5400)},
 }
 
 LEVEL = {p: 'exploration' for p in TIERS}
